@@ -57,11 +57,13 @@ def expected(indices):
 def rule_fold(repo, tier='quick'):
     rr = RuleResult('C10.R1', 'subset(): rows kept, subset count, pass-through, purity and bounds folded over index collections')
     fi = repo.own_method('BufrMessage', 'subset')
-    good = [[0], [4], [2], [0, 1, 2, 3, 4], [4, 0], [3, 1, 2], [0, 0], [2, 2, 2], [0, 0, 2], [4, 1, 4, 1], [1, 3], (2, 4), [3, 3, 0]]
+    good = [[0], [4], [2], [0, 1, 2, 3, 4], [4, 0], [3, 1, 2], [0, 0], [2, 2, 2], [0, 0, 2], [4, 1, 4, 1], [1, 3], (2, 4), [3, 3, 0],
+            # as many entries as the message has subsets, but not all of them (repeats), and more entries than subsets
+            [0, 0, 2, 3, 4], [1, 1, 1, 1, 1], [4, 3, 2, 1, 0], [0, 1, 2, 3, 4, 0], [2, 2, 2, 2, 2, 2, 2]]
     bad = [[5], [0, 5], [-1], [-1, 2], [7, 7], [4, 5], [-2, -1]]
     if tier == 'thorough':
         # every collection over 0..4 of length 1..4 (with repeats, any order), and every collection of length <= 3 over -1..5 that leaves the range
-        good = [list(c) for k in (1, 2, 3, 4) for c in itertools.product(range(N), repeat=k)]
+        good = [list(c) for k in (1, 2, 3, 4, 5) for c in itertools.product(range(N), repeat=k)] + [[0, 1, 2, 3, 4, 0], [2, 2, 2, 2, 2, 2, 2]]
         bad = [list(c) for k in (1, 2, 3) for c in itertools.product(range(-1, N + 1), repeat=k) if min(c) < 0 or max(c) >= N]
     for idxs in good + bad:
         it = SubsetInterp(repo, 'BufrMessage')
@@ -187,6 +189,9 @@ def run(repo, check):
     share(check, repo, c01.rule_r7, 'C10.R10', 'missing detection when the reduced message is read back (shared with C01.R7)')
     from sa.rules import columns
     share(check, repo, columns.rule_columns, 'C10.R12', 'encoding the reduced message and reading it back: column round trip (shared with C05.R12)', args=(check.tier, 'C10.R12'))
+    from sa.rules import c13 as _c13, c07 as _c07
+    share(check, repo, _c13.rule_r3, 'C10.R13', 'the encoder that writes the reduced message keeps nothing from the messages it wrote before (shared with C13.R3)')
+    share(check, repo, _c07.rule_r6, 'C10.R14', 'bitmaps of the selected subsets are taken from the subset being written (shared with C07.R6)')
     check.assumptions = ['the values of a decoded message are the rows of decoded_values_all_subsets (C01/C03); re-compression of the reduced columns is C05',
                          'validity of the re-encoded bytes for a particular message is a runtime fact']
 
